@@ -38,7 +38,11 @@ def build(kind, path, behaviours, cfg, order, maxc):
     for b, beh in enumerate(behaviours):
         g = "g:%s:%d" % (path, b)
         if beh == "ok":
-            body = [{"k": "step", "script": [{"do": "ok", "val": "v%d" % b, "gate": g}]}]
+            # results incl. values that are falsy but not None (they must come back as they are when the block is replayed)
+            body = [{"k": "step", "script": [{"do": "ok", "val": ["v%d" % b, 0, "", [], {}, False, 0.0][b % 7], "gate": g}]}]
+            if b % 7 in (1, 2, 5):
+                brs.append({"body": body, "result": {"raw_last": True}})
+                continue
         elif beh == "fail":
             body = [{"k": "step", "script": [{"do": "fail", "cls": "ValueError", "msg": "f%d" % b, "gate": g}], "retry": {"kind": "preset", "name": "none"}}]
         elif beh == "wait":
